@@ -34,6 +34,26 @@ def _history(h, ctor, hist):
     if obs["exc"] is not None:
         return None, None, C
     ib.SELF[0] = inst
+    # warm-up: evolve/assoc instances of ancestor classes and of an ad-hoc subclass first (anything cached
+    # per class by evolve/assoc must not leak along the inheritance chain)
+    for i, wctor in hist.get("warm", []):
+        try:
+            A = classes[i]
+            a = A(*[ib.decode(v) for v in wctor["pos"]], **{k: ib.decode(v) for k, v in wctor["kw"]})
+            attr.evolve(a)
+            attr.assoc(a)
+        except BaseException:  # noqa: BLE001
+            pass
+    if hist.get("warm_sub"):
+        try:
+            Sub = attr.s(these={"zz_extra": attr.ib(default="zz")}, slots=False)(type("Sub", (C,), {}))
+            s_ = Sub(*[ib.decode(v) for v in ctor["pos"]], **{k: ib.decode(v) for k, v in ctor["kw"]})
+            attr.evolve(s_)
+            attr.assoc(s_)
+        except BaseException:  # noqa: BLE001
+            pass
+    del ib.TRACE[:]
+    ib.SELF[0] = inst
     if hist.get("hash_before"):
         try:
             hash(inst)
@@ -41,7 +61,7 @@ def _history(h, ctor, hist):
             pass
     for name, val in hist.get("reassign", []):
         try:
-            setattr(inst, name, val)
+            setattr(inst, name, ib.decode(val))
         except Exception:  # noqa: BLE001
             pass
     del ib.TRACE[:]
@@ -71,7 +91,11 @@ def gen_cases(tier, rng):
         frozen = ib.leaf_frozen(h)
         ctor = ib.gen_call(rng, h, malformed=0.0)
         for _ in range(3):
-            hist = {"hash_before": rng.random() < 0.6, "reassign": []}
+            hist = {"hash_before": rng.random() < 0.6, "reassign": [], "warm": [], "warm_sub": rng.random() < 0.3}
+            if len(h["classes"]) > 1 and rng.random() < 0.6:
+                for i, cs in enumerate(h["classes"][:-1]):
+                    if cs["kind"] == "attrs" and cs.get("init") is not False:
+                        hist["warm"].append([i, ib.gen_call(rng, {"classes": h["classes"][: i + 1]}, malformed=0.0)])
             if not frozen and fields and rng.random() < 0.4:
                 f = rng.choice(fields)
                 hist["reassign"] = [[f["name"], "r1"]]
@@ -101,7 +125,8 @@ def gen_cases(tier, rng):
             if rng.random() < 0.12:
                 chosen.append(rng.choice(["nope", "x_", "_" + (keys[0] if keys else "q")]))
                 chosen = list(dict.fromkeys(chosen))
-            changes = [[key, f"n{i + 1}"] for i, key in enumerate(chosen)]
+            changes = [[key, rng.choice(["None", "None", ""]) if rng.random() < 0.2 else f"n{i + 1}"]
+                       for i, key in enumerate(chosen)]
             yield make_case(h, ctor, hist, op, changes, cur)
 
 
@@ -120,9 +145,9 @@ def observe(case):
         with warnings.catch_warnings():
             warnings.simplefilter("ignore")
             if case["op"] == "evolve":
-                res = attr.evolve(inst, **dict(case["changes"]))
+                res = attr.evolve(inst, **{k: ib.decode(v) for k, v in case["changes"]})
             else:
-                res = attr.assoc(inst, **dict(case["changes"]))
+                res = attr.assoc(inst, **{k: ib.decode(v) for k, v in case["changes"]})
     except BaseException as e:  # noqa: BLE001
         exc = ib.exc_enum(e)
     finally:
@@ -179,6 +204,8 @@ def dist(case, obs):
     d["op"] = case["op"]
     d["hash_before"] = case["hist"].get("hash_before")
     d["reassigned"] = bool(case["hist"].get("reassign"))
+    d["warm"] = len(case["hist"].get("warm", [])) + (10 if case["hist"].get("warm_sub") else 0)
+    d["none_change"] = any(v == "None" for _, v in case["changes"])
     return d
 
 
@@ -188,6 +215,13 @@ def shrink(case):
         yield dict(case, changes=ch[:i] + ch[i + 1:])
     if case["hist"].get("hash_before"):
         yield dict(case, hist=dict(case["hist"], hash_before=False))
+    if case["hist"].get("warm"):
+        yield dict(case, hist=dict(case["hist"], warm=[]))
+    if case["hist"].get("warm_sub"):
+        yield dict(case, hist=dict(case["hist"], warm_sub=False))
+    for i, (k, v) in enumerate(ch):
+        if v in ("None", ""):
+            yield dict(case, changes=ch[:i] + [[k, "n9"]] + ch[i + 1:])
 
 
 def neighbours(case, rng):
